@@ -251,6 +251,9 @@ pub struct MapCfg {
     pub alt_hasher: bool,
     /// offer per-key operations only for ids below this (lookups still cover the whole universe)
     pub ops_universe: Option<u8>,
+    /// C13: an insertion must not grow the allocation while the table is at most half full
+    /// (slots freed by removals must be reclaimed in place instead of driving growth)
+    pub no_growth_when_half_empty: bool,
 }
 impl MapCfg {
     pub fn new(plan: Plan, universe: u8) -> Self {
@@ -266,6 +269,7 @@ impl MapCfg {
             bucket_bound: None,
             alt_hasher: false,
             ops_universe: None,
+            no_growth_when_half_empty: false,
         }
     }
     /// class of each key id: index of its hash among the plan's distinct hashes
@@ -542,6 +546,15 @@ impl<K: KeyT, V: ValT> MapHarness<K, V> {
         if let Some(pre) = pre {
             let post = sut.map.verif_dump();
             classify(&pre, &post, stats);
+            if self.cfg.no_growth_when_half_empty && !pre.is_singleton && post.bucket_mask > pre.bucket_mask {
+                let full_cap = hashbrown::verif::bucket_mask_to_capacity(pre.bucket_mask);
+                if pre.items + 1 <= full_cap / 2 {
+                    return Err(format!(
+                        "removals drive growth: {:?} grew the table from {} to {} buckets although it held only {} live elements (capacity {}, {} removed-slot markers): freed slots were not reclaimed in place",
+                        op, pre.bucket_mask + 1, post.bucket_mask + 1, pre.items, full_cap, inv::count_deleted(&pre)
+                    ));
+                }
+            }
         }
         Ok(())
     }
